@@ -1108,6 +1108,8 @@ def install_string_stubs(E):
     S[PFX + '6appendERKS4_'] = append_s; S[PFX + 'pLERKS4_'] = append_s
     def push_back(E, st, fr, I, A): s_set(E, st, A[0], s_bytes(E, st, A[0]) + [A[1] if is_sym(A[1]) else A[1] & 0xff]); return None
     S[PFX + '9push_backEc'] = push_back
+    def pop_back(E, st, fr, I, A): s_set(E, st, A[0], s_bytes(E, st, A[0])[:-1]); return None
+    S[PFX + '8pop_backEv'] = pop_back
     def reserve(E, st, fr, I, A):
         n = A[1] if len(A) > 1 else 0
         if n > s_cap(E, st, A[0]):
